@@ -28,3 +28,36 @@ Theorem C06_validity_check : forall hs fcs rcs ps, ps <> [] -> Forall (part_expr
   is_valid_tree ps hs fcs rcs = Ok (forallb part_valid ps).
 Proof. exact validity_check_decides. Qed.
 Print Assumptions C06_validity_check.
+
+(* ---- every schedule. Model/ValidityAsync.v writes the evaluation loop of is_valid_expression as a task tree: one gathered coroutine per generated
+   content evaluation result, each calling the setter (a context variable is written) and then awaiting evaluate_ahb_expression_tree -- an arbitrary
+   program. Whatever the order in which these evaluations proceed, the verdict is the sequential loop's, each evaluation finds its own content
+   evaluation result (not a sibling's, not the caller's), and with evaluators that answer from the stored result the verdict is the structural one. *)
+From Ahb Require Import Model.Async Model.ValidityAsync Proofs.C06_async.
+
+Theorem C06_validity_loop_under_every_schedule : forall (U : Type) (evalp : prog (vv U)) (c : Async.ctx (vv U)) (gs : list cer) (r : vv U),
+  steps (initial c (valid_prog U evalp gs)) (Done r) -> as_res r = try_all_gen (eval_of U evalp c) gs.
+Proof. exact valid_every_schedule. Qed.
+Print Assumptions C06_validity_loop_under_every_schedule.
+
+Theorem C06_evaluation_sees_its_own_result : forall (U : Type) (evalp : prog (vv U)) (c : Async.ctx (vv U)) (v : vv U) (g : cer),
+  eval_of U evalp (upd c DATAV v) g = eval_of U evalp c g.
+Proof. exact eval_of_ignores_outer_data. Qed.
+Print Assumptions C06_evaluation_sees_its_own_result.
+
+Theorem C06_sequential_loop_is_try_all : forall a gs, try_all a gs = try_all_gen (fun g => forget (eval_ahb g a)) (map cer_of gs).
+Proof. exact try_all_is_gen. Qed.
+Print Assumptions C06_sequential_loop_is_try_all.
+
+Theorem C06_validity_check_under_every_schedule : forall (U : Type) (evalp : prog (vv U)) (c : Async.ctx (vv U)) hs fcs rcs ps (r : vv U),
+  (forall g, eval_of U evalp c g = forget (eval_ahb g ps)) ->
+  ps <> [] -> Forall (part_expr_ok hs fcs rcs) ps -> NoDup hs -> NoDup fcs -> NoDup rcs -> ~ In fc_dummy fcs -> ~ In rc_dummy rcs ->
+  steps (initial c (valid_prog U evalp (map cer_of (generate hs fcs rcs)))) (Done r) -> as_res r = Ok (forallb part_valid ps).
+Proof. exact validity_check_every_schedule. Qed.
+Print Assumptions C06_validity_check_under_every_schedule.
+
+(* the first hypothesis is met by an evaluation that suspends and then reads the stored result *)
+Theorem C06_every_schedule_hypothesis_satisfiable : forall (U : Type) (ps : ahb) c g,
+  eval_of U (cer_based_evalp U ps) c g = forget (eval_ahb g ps).
+Proof. exact cer_based_evalp_ok. Qed.
+Print Assumptions C06_every_schedule_hypothesis_satisfiable.
